@@ -315,7 +315,19 @@ func genStateful() *rapid.Generator[*ast.Node] {
 	name := rapid.Custom(func(t *rapid.T) *ast.Node { return ast.NameN(rapid.SampledFrom(gen.Names).Draw(t, "n")) })
 	ctxFns := []string{"string", "length", "uppercase", "lowercase", "trim", "number", "abs", "boolean", "keys", "type", "spread"}
 	return rapid.Custom(func(t *rapid.T) *ast.Node {
-		switch rapid.IntRange(0, 30).Draw(t, "shape") {
+		switch rapid.IntRange(0, 32).Draw(t, "shape") {
+		case 29: // a built-in's name shadowed in the block only for the inputs that have a member
+			f := rapid.SampledFrom([]string{"sum", "count", "string", "uppercase", "max"}).Draw(t, "shadowed")
+			return ast.BlockN(ast.N(ast.Cond, ast.CallN("exists", name.Draw(t, "cond")), assign(f, ast.LambdaN([]string{"v"}, "", ast.StrN("shadowed"))), ast.NumN(0)),
+				ast.CallN(f, ast.ArrN(ast.NumN(1), ast.NumN(2))))
+		case 30: // a transform whose update clause reads a variable bound from the input outside it
+			n := name.Draw(t, "outer")
+			upd := ast.N(ast.Obj, ast.StrN("t"), ast.VarN("r"))
+			if rapid.Bool().Draw(t, "viaRoot") {
+				upd = ast.N(ast.Obj, ast.StrN("t"), ast.CallN("string", ast.PathN(ast.VarN("$"), n.Clone())))
+			}
+			return ast.BlockN(assign("r", ast.CallN("string", n)),
+				ast.N(ast.Chain, ast.N(ast.Obj, ast.StrN("o"), ast.N(ast.Obj, ast.StrN("k"), ast.NumN(1))), ast.N(ast.Transform, ast.NameN("o"), upd)))
 		case 27: // time parsing/formatting with and without a picture (a twin from the same family joins the pool)
 			return c05TimeFamily(t)
 		case 28: // a concatenation chain whose last operand fails on the inputs that lack a member, after the first operands were rendered
